@@ -104,6 +104,13 @@ func GenSFHostile(r *rand.Rand, seq, subID uint32, maxSize int) *SFDatagram {
 		s := &d.Samples[i]
 		for j := range s.Records {
 			rec := &s.Records[j]
+			if rec.Raw != nil && rec.Raw.Proto == 1 && r.Intn(4) == 0 {
+				// stacked 802.1Q tags, possibly captured only in part
+				if rec.Raw.Vlan < 0 {
+					rec.Raw.Vlan = r.Intn(4096)
+				}
+				rec.Raw.MoreTags = 1 + r.Intn(3)
+			}
 			if rec.Raw != nil && !rec.Raw.IPv6 && r.Intn(3) == 0 {
 				// IPv4 options: any header length, possibly captured only in part
 				rec.Raw.IHL = uint8(r.Intn(16))
@@ -112,7 +119,7 @@ func GenSFHostile(r *rand.Rand, seq, subID uint32, maxSize int) *SFDatagram {
 			case rec.Raw != nil && r.Intn(2) == 0:
 				n := len(rec.Raw.Bytes())
 				if r.Intn(2) == 0 && n > 20 {
-					rec.CutP1 = 1 + 10 + r.Intn(12) // around the Ethernet / 802.1Q boundary
+					rec.CutP1 = 1 + 10 + r.Intn(12+4*rec.Raw.MoreTags) // around the Ethernet / 802.1Q boundary
 				} else {
 					rec.CutP1 = 1 + r.Intn(n+1)
 				}
